@@ -41,8 +41,8 @@ def field_sources(view, operand, proj, at):
         for d in view.defs().get(l, []):
             if d[0] == "s":
                 b, i, s = d[1], d[2], d[3]
-                if not view.def_reaches(b, i, at_):
-                    continue
+                if not (view.def_reaches(b, i, at_) and view.def_reaches_killing(l, b, i, at_, p, fields_only=True)):
+                    continue      # overwritten on every path to the use (e.g. a default that is always re-assigned)
                 F = tuple(view._named_fields(s["lhs"]["p"]))
                 n = min(len(F), len(p))
                 if F[:n] != p[:n]:
@@ -247,6 +247,11 @@ _CONST_CTORS = {
     "cosmwasm_std::Decimal::percent": lambda a: Fraction(a[0], 100),
     "cosmwasm_std::Decimal::permille": lambda a: Fraction(a[0], 1000),
     "cosmwasm_std::Decimal256::percent": lambda a: Fraction(a[0], 100),
+    "<cosmwasm_std::Uint64 as std::default::Default>::default": lambda a: Fraction(0),
+    "<cosmwasm_std::Uint128 as std::default::Default>::default": lambda a: Fraction(0),
+    "<cosmwasm_std::Uint256 as std::default::Default>::default": lambda a: Fraction(0),
+    "<cosmwasm_std::Decimal as std::default::Default>::default": lambda a: Fraction(0),
+    "<cosmwasm_std::Decimal256 as std::default::Default>::default": lambda a: Fraction(0),
     "<cosmwasm_std::Uint64 as std::convert::From<u64>>::from": lambda a: Fraction(a[0]),
     "<cosmwasm_std::Uint128 as std::convert::From<u128>>::from": lambda a: Fraction(a[0]),
 }
@@ -675,7 +680,50 @@ def sample_walk(view, env, start=0):
 # ---------------------------------------------------------------------------------------
 # expression shape (operator tree) of a value, for wiring rules over arithmetic helpers
 
-def expr_shape(view, operand, at, depth=8, _seen=None):
+_VALUE_COMBINATOR = re.compile(r"^std::(bool::then|option::Option::(map|and_then|map_or|map_or_else)|result::Result::(map|and_then))$")
+
+
+def _closure_result_shapes(view, b, t, depth):
+    """`cond.then(|| e)`, `opt.map(|x| e)`, ...: the value is what the closure computes. Shapes of the closure's results
+    with its captured variables replaced by the shapes of what was captured; None when the closure cannot be read."""
+    model = getattr(view, "model", None)
+    if model is None:
+        return None
+    cpath = None
+    cop = None
+    for a in t["args"]:
+        for o in view.origins_of_operand(a, at=view.at_term(b), taint=True):
+            if o.kind == "closure" and o.a in model.fnsrc:
+                cpath = o.a
+    if cpath is None:
+        return None
+    ops = None
+    cblock = None
+    for cb, cp, cops in view.closures_created():
+        if cp == cpath:
+            ops, cblock = cops, cb
+    if ops is None:
+        return None
+    cv = model.view(cpath)
+    subst = {}
+    for k, op in enumerate(ops):
+        subst["param(1).%d" % k] = expr_shape(view, op, (cblock, len(view.blocks[cblock]["s"])), depth - 1)
+    out = []
+    for rb in cv.return_blocks():
+        sh = expr_shape(cv, {"k": "copy", "pl": {"l": 0, "p": []}}, cv.at_term(rb), depth - 1, subst=subst)
+        out.append(sh)
+    return out or None
+
+
+def _subst_shape(sh, subst):
+    if isinstance(sh, str):
+        return subst.get(sh, sh)
+    if sh and sh[0] == "phi":
+        return ("phi",) + tuple(_subst_shape(x, subst) for x in sh[1:])
+    return (sh[0], tuple(_subst_shape(x, subst) for x in sh[1])) + tuple(sh[2:])
+
+
+def expr_shape(view, operand, at, depth=8, _seen=None, subst=None):
     """Nested tuple describing how the operand is computed inside this function: ("callee", (arg shapes..)) for
     a non-transparent call or primitive operation, "param(i).f" / "const" / "load(..)" for leaves. Several reaching
     definitions give ("phi", shapes..). Transparent calls (clone, into, `?`, unwrap, ...) do not appear."""
@@ -688,9 +736,14 @@ def expr_shape(view, operand, at, depth=8, _seen=None):
             c = call_of(view, o)
             if c is not None:
                 b, t = c
+                if _VALUE_COMBINATOR.search(mname(t)) and subst is None:
+                    inner = _closure_result_shapes(view, b, t, depth)
+                    if inner is not None:
+                        shapes.extend(inner)
+                        continue
                 name = mname(t).split("<")[0] if mname(t).startswith("<") is False else mname(t)
                 short = re.sub(r"^.*::", "", mname(t).rstrip(">"))
-                args = tuple(expr_shape(view, a, view.at_term(b), depth - 1) for a in t["args"])
+                args = tuple(expr_shape(view, a, view.at_term(b), depth - 1, subst=subst) for a in t["args"])
                 shapes.append((short, args) if not o.proj else (short, args, tuple(o.proj)))
                 continue
         if o.kind == "arith" and depth > 0 and o.b and ":bb" in str(o.b):
@@ -700,9 +753,9 @@ def expr_shape(view, operand, at, depth=8, _seen=None):
                 st = view.blocks[int(bb[2:])]["s"][int(idx)]
                 rv = st["rv"]
                 ops = [rv[k] for k in ("a", "b") if k in rv]
-                shapes.append((str(o.a), tuple(expr_shape(view, a, (int(bb[2:]), int(idx)), depth - 1) for a in ops)))
+                shapes.append((str(o.a), tuple(expr_shape(view, a, (int(bb[2:]), int(idx)), depth - 1, subst=subst) for a in ops)))
                 continue
-        shapes.append(repr(o))
+        shapes.append(subst.get(repr(o), repr(o)) if subst else repr(o))
     if not shapes:
         return "?"
     if len(shapes) == 1:
@@ -727,6 +780,8 @@ def norm_shape(sh):
     name, args = sh[0], tuple(norm_shape(a) for a in sh[1])
     if _CONV.match(name) and len(args) == 1:
         return args[0]
+    if not args and name in ("one", "zero") and len(sh) == 2:
+        return "const(%d)" % (1 if name == "one" else 0)      # Uint128::one() is the literal 1u128.into()
     for rx, canon in _OPS:
         if rx.match(name):
             name = canon
